@@ -226,6 +226,15 @@ func init() {
 			if o >= 0 && o < len(mut) {
 				mut[o] ^= byte(adv.Int("mask"))
 			}
+		case "swap":
+			// two adjacent regions (whole option pairs, per the specification) exchanged
+			o, la, lb := adv.Int("off"), adv.Int("la"), adv.Int("lb")
+			if o >= 0 && la > 0 && lb > 0 && o+la+lb <= len(mut) {
+				first := append([]byte{}, mut[o:o+la]...)
+				second := append([]byte{}, mut[o+la:o+la+lb]...)
+				copy(mut[o:], second)
+				copy(mut[o+lb:], first)
+			}
 		case "replace_sig":
 			asig, _ := attacker.sign(append(append([]byte{}, prefix...), mut[:sigslot.off]...))
 			put(mut, sigslot, asig)
